@@ -301,6 +301,13 @@ func runDriver(ch *Check, c *Ctx) int {
 		}
 	}
 	if ch.Finish != nil {
+		if ch.Setup != nil && ch.Driver == nil {
+			// the driver needs the same inventory / workload view as the workers to judge observation gates
+			if err := ch.Setup(c); err != nil {
+				fmt.Fprintln(os.Stderr, "driver setup:", err)
+				return 2
+			}
+		}
 		gates = append(gates, ch.Finish(c, merged, ev)...)
 	}
 	// verdicts
